@@ -566,6 +566,10 @@ def sibling_keyword_split(idx: ProgramIndex, rep: Report):
         for t in ast.walk(fi.node):
             if isinstance(t, ast.Compare) and len(t.ops) == 1 and isinstance(t.ops[0], ast.In) and const_str(t.left) and chain(t.comparators[0]) == kw:
                 split.setdefault(const_str(t.left), set()).add(name)
+            # ... or `kwargs.get("key") is not None`
+            if isinstance(t, ast.Compare) and len(t.ops) == 1 and isinstance(t.ops[0], (ast.Is, ast.IsNot)) and isinstance(t.left, ast.Call) and isinstance(t.left.func, ast.Attribute) \
+                    and t.left.func.attr == "get" and chain(t.left.func.value) == kw and t.left.args and const_str(t.left.args[0]):
+                split.setdefault(const_str(t.left.args[0]), set()).add(name)
     for key, where in sorted(split.items()):
         for fi in delegating:
             ok = fi.name in where
@@ -745,7 +749,8 @@ def call_time_noise_priority(idx: ProgramIndex, rep: Report):
         sn = fi.params[0]
         probs = []
         for st in ast.walk(fi.node):
-            if isinstance(st, ast.Assign) and any(isinstance(t, ast.Name) and t.id == "noise" for t in st.targets) and any(isinstance(x, ast.Attribute) and chain(x.value) == sn for x in ast.walk(st.value)):
+            if isinstance(st, ast.Assign) and any(isinstance(t, ast.Name) and t.id == "noise" for t in st.targets) and any(isinstance(x, ast.Attribute) and chain(x.value) == sn for x in ast.walk(st.value)) \
+                    and not any(isinstance(x, ast.Name) and x.id == "noise" for x in ast.walk(st.value)):  # a function of the argument (self._lower_bounded(noise)) keeps the argument
                 tests = [t for t, br in _tests_around_c12(fi.node, st) if _is_none_test(t, "noise", br)]
                 if not tests:
                     probs.append("line %d: `%s` replaces the argument outside a test that it is None" % (st.lineno, " ".join(src(st).split())[:50]))
